@@ -140,12 +140,12 @@ def use_resolution(ctx):
     E = sym.Engine(ctx, max_paths=50000, incremental=True)
     found = E.explore(h)
     seen = set()
-    for label, m, pc in found:
+    for (label, m, pc), A in list(zip(found, E.autosnaps)):
         if label in seen:
             continue
         seen.add(label)
-        u, t, q = h.state
-        wt, wp = (choice.value_in_model(m, x) for x in h.want)
+        u, t, q = A["state"]
+        wt, wp = (choice.value_in_model(m, x) for x in A["want"])
         ctx.report(label, {"use": choice.value_in_model(m, u)[0], "tref": choice.value_in_model(m, t)[0],
                            "pref": choice.value_in_model(m, q)[0],
                            "expected": {"type": list(wt) if wt else None, "proc": list(wp) if wp else None}}, replay_use_resolution)
@@ -267,12 +267,12 @@ def scoping(ctx):
     E = sym.Engine(ctx, max_paths=50000, incremental=True)
     found = E.explore(h)
     seen = set()
-    for label, m, pc in found:
+    for (label, m, pc), A in list(zip(found, E.autosnaps)):
         if label in seen:
             continue
         seen.add(label)
-        slots = [choice.value_in_model(m, x)[0] for x in h.state]
-        exp = {k: (list(choice.value_in_model(m, v)) if choice.value_in_model(m, v) else None) for k, v in h.want.items()}
+        slots = [choice.value_in_model(m, x)[0] for x in A["state"]]
+        exp = {k: (list(choice.value_in_model(m, v)) if choice.value_in_model(m, v) else None) for k, v in A["want"].items()}
         ctx.report(label, {"slots": slots, "expected": exp}, replay_scoping)
     if E.reached.get("correlated"):
         ctx.twins += 1
